@@ -26,6 +26,7 @@ mod c14;
 mod c15;
 mod c16;
 mod c18;
+mod c19;
 mod c20;
 mod sendsys;
 mod chan;
@@ -89,6 +90,7 @@ fn main() {
             "C15" => c15::replay(&v["replay"]),
             "C16" => c16::replay(&v["replay"]),
             "C18" => c18::replay(&v["replay"]),
+            "C19" => c19::replay(&v["replay"]),
             "C20" => c20::replay(&v["replay"]),
             _ => {
                 eprintln!("no replay for {}", id);
@@ -122,6 +124,7 @@ fn main() {
             "C15" => c15::run(thorough),
             "C16" => c16::run(thorough),
             "C18" => c18::run(thorough),
+            "C19" => c19::run(thorough),
             "C20" => c20::run(thorough),
             other => {
                 eprintln!("unknown check {}", other);
